@@ -45,6 +45,33 @@ def _helper_of(P, f, call):
         for rel, m2 in P.modules.items():
             if m2.modname == modname and fname in m2.functions:
                 return m2.functions[fname], None
+    if isinstance(fn, ast.Attribute) and isinstance(fn.value, ast.Call) and isinstance(fn.value.func, ast.Name) and fn.value.func.id == "super" \
+            and not fn.value.args and f.cls is not None and f.role == "method":
+        # super().m(…): the method the first base class that has one provides (single inheritance chains only)
+        cur, hops = f.cls, 0
+        while cur is not None and hops < 6:
+            hops += 1
+            if len(cur.base_names) != 1:
+                break
+            bname = cur.base_names[0].split(".")[-1]
+            nxt = [c for m2 in P.modules.values() for c in m2.classes.values() if c.name == bname]
+            if len(nxt) != 1:
+                break
+            cur = nxt[0]
+            if fn.attr in cur.methods:
+                h = cur.methods[fn.attr]
+                return (h, "self") if h.role == "method" else (None, None)
+        return None, None
+    if isinstance(fn, ast.Attribute) and _is_private(fn.attr) and isinstance(fn.value, ast.Attribute) and _plain_chain(fn.value):
+        # `x.reference._helper(…)`: the receiver is read once into a local of the spliced body
+        if mod.relpath.startswith("spydrnet/ir/"):
+            cands = [ci.methods[fn.attr] for ci in P.ir_classes.values() if fn.attr in ci.methods]
+        else:
+            cands = [ci.methods[fn.attr] for ci in mod.classes.values() if fn.attr in ci.methods] or \
+                    [ci.methods[fn.attr] for ci in P.ir_classes.values() if fn.attr in ci.methods]
+        cands = [c for c in cands if c.role == "method"]
+        if len(cands) == 1:
+            return cands[0], fn.value
     if isinstance(fn, ast.Attribute) and _is_private(fn.attr) and isinstance(fn.value, ast.Name):
         base = fn.value.id
         if f.cls is not None and (base in ("self", "cls") or base == f.cls.name):
@@ -64,6 +91,12 @@ def _helper_of(P, f, call):
             if len(cands) == 1:
                 return cands[0], base
     return None, None
+
+
+def _plain_chain(e):
+    while isinstance(e, ast.Attribute):
+        e = e.value
+    return isinstance(e, ast.Name)
 
 
 def _inlineable(h):
@@ -146,7 +179,9 @@ def _bind(h, base, call, tag):
     if h.role == "method":
         if base is None:
             return None
-        if base != h.cls.name:
+        if isinstance(base, ast.AST):
+            args = [copy_tree(base)] + args
+        elif base != h.cls.name:
             args = [ast.Name(id=base, ctx=ast.Load())] + args
         # C.h(obj, a…): the receiver is written out as the first argument
     if any(isinstance(a, ast.Starred) for a in args) or any(k.arg is None for k in call.keywords):
@@ -164,7 +199,7 @@ def _bind(h, base, call, tag):
     prelude, mapping, rename = [], {}, {}
     for p in params:
         a = bound[p]
-        if p in stored or not _simple_arg(a):
+        if p in stored or not _simple_arg(a) or (isinstance(base, ast.AST) and p == params[0]):
             newp = "%s__%s" % (p, tag)
             asg = ast.Assign(targets=[ast.Name(id=newp, ctx=ast.Store())], value=a)
             ast.copy_location(asg, call)
@@ -189,6 +224,25 @@ def _body_copy(h, subst):
 EAGER = {"list": "append", "tuple": "append", "sorted": "append", "set": "add", "frozenset": "add"}
 
 
+_override_cache = {}
+
+
+def _overridden_below(P, h):
+    key = (id(P), h.key)
+    if key not in _override_cache:
+        res = False
+        classes = getattr(P, "ir_classes", None) or {}
+        if h.cls.name in classes:
+            for cname, ci in classes.items():
+                if cname != h.cls.name and any(b.name == h.cls.name for b in P.ir_mro(cname)) and h.name in ci.methods:
+                    res = True
+                    break
+        if len(_override_cache) > 5000:
+            _override_cache.clear()
+        _override_cache[key] = res
+    return _override_cache[key]
+
+
 class _Inliner:
     def __init__(self, P, f, keep=(), eager_only=False):
         self.P, self.f = P, f
@@ -197,6 +251,7 @@ class _Inliner:
         self.globals = set()
         self.count = 0
         self.inlined = []
+        self.super_used = False
 
     def helper(self, call):
         if not isinstance(call, ast.Call):
@@ -206,6 +261,11 @@ class _Inliner:
             return None, None
         if (callable(self.keep) and self.keep(h.name)) or (not callable(self.keep) and h.name in self.keep):
             return None, None  # an anchor the calling rule reasons about by name
+        is_super = isinstance(call.func, ast.Attribute) and isinstance(call.func.value, ast.Call) and norm(call.func.value.func) == "super"
+        if h.cls is not None and h.role == "method" and not is_super and _overridden_below(self.P, h):
+            return None, None  # a subclass answers this call differently: which body runs is decided by the object, not here
+        if is_super:
+            self.super_used = True
         return h, base
 
     def splice(self, call, on_return, need_value=False, generator=False, tail=False):
@@ -581,6 +641,13 @@ class _Inliner:
                 setattr(st, fld, [T().visit(v) for v in val])
 
 
+_NAVIGATION = {"reference", "definition", "parent", "library", "netlist", "children", "ports", "cables", "references", "name", "item", "definitions", "libraries"}
+_CONTAINER_METHODS = {"remove", "add", "append", "discard", "insert", "extend", "index", "count", "get", "setdefault", "update", "pop", "difference_update",
+                      "intersection_update", "appendleft", "extendleft"}
+_PURE_BUILTINS = {"isinstance", "len", "zip", "list", "set", "tuple", "id", "type", "iter", "next", "enumerate", "reversed", "sorted", "bool", "str", "repr",
+                  "frozenset", "dict", "all", "any", "sum", "min", "max", "range", "hash", "print", "issubclass", "callable"}
+
+
 def _substitute_field_aliases(node):
     """`current = self._reference … current._references.remove(self)`: a local bound once to a plain field read of self / a parameter is
     replaced, at the uses that follow, by the field read it stands for — unless something in between (in document order) could have
@@ -602,36 +669,106 @@ def _substitute_field_aliases(node):
     for n in ast.walk(node):
         if isinstance(n, (ast.Call, ast.Assign, ast.AugAssign, ast.Delete)):
             last[id(n)] = max(order[id(x)] for x in ast.walk(n))
+    store_pos = {}
+    for n in ast.walk(node):
+        if isinstance(n, ast.Name) and isinstance(n.ctx, (ast.Store, ast.Del)):
+            store_pos[n.id] = order[id(n)]
     alias = {}  # name -> [(field read, position of the binding)], every binding of the name being the same field read
     bad = set()
     for n in ast.walk(node):
         if isinstance(n, ast.Assign) and len(n.targets) == 1 and isinstance(n.targets[0], ast.Name):
             nm = n.targets[0].id
             if nm not in params and isinstance(n.value, ast.Attribute) and isinstance(n.value.value, ast.Name) \
-                    and (n.value.value.id == "self" or n.value.value.id in params) and stores.get(n.value.value.id, 0) == 0:
+                    and (((n.value.value.id == "self" or n.value.value.id in params) and stores.get(n.value.value.id, 0) == 0)
+                         # … or of a local bound exactly once, before this statement (a loop variable inside its loop: `pins = reference._pins`)
+                         # (private fields and the navigation properties; connection pointers such as `.wire` are snapshots on purpose —
+                         # flatten and the comparer read them before they rewire — and stay locals)
+                         or (stores.get(n.value.value.id, 0) == 1 and n.value.value.id not in params
+                             and (n.value.attr.startswith("_") or n.value.attr in _NAVIGATION)
+                             and store_pos.get(n.value.value.id, 1 << 30) < order[id(n)])):
                 alias.setdefault(nm, []).append((n.value, last.get(id(n), order[id(n)])))
+            elif nm not in params and isinstance(n.value, ast.Constant):
+                alias.setdefault(nm, []).append((n.value, last.get(id(n), order[id(n)])))  # a binding to a literal: nothing to substitute there
             else:
                 bad.add(nm)
+    # a name bound to different field reads in different branches (each branch carrying its own continuation, as `specialise` leaves
+    # them): a use is replaced only when the binding nearest before it sits in a block that encloses the use, and no binding is in a loop
+    multi = {}
+    parent = {}
+    for n in ast.walk(node):
+        for c in ast.iter_child_nodes(n):
+            parent[id(c)] = n
+    binding_stmt = {}
+    for n in ast.walk(node):
+        if isinstance(n, ast.Assign) and len(n.targets) == 1 and isinstance(n.targets[0], ast.Name) and isinstance(n.value, (ast.Attribute, ast.Constant)):
+            binding_stmt[id(n.value)] = n
+
+    def in_loop(x):
+        p_ = parent.get(id(x))
+        while p_ is not None and p_ is not node:
+            if isinstance(p_, (ast.For, ast.While)):
+                return True
+            p_ = parent.get(id(p_))
+        return False
     for nm in list(alias):
-        if nm in bad or len(alias[nm]) != stores.get(nm) or len({norm(v) for v, d in alias[nm]}) != 1:
+        if nm in bad or len(alias[nm]) != stores.get(nm):
             del alias[nm]
+        elif all(isinstance(v, ast.Constant) for v, d in alias[nm]):
+            del alias[nm]
+        elif len({norm(v) for v, d in alias[nm]}) != 1:
+            if not any(in_loop(v) for v, d in alias[nm]):
+                multi[nm] = True
+            else:
+                del alias[nm]
     if not alias:
         return False
     disturb = []
     for n in ast.walk(node):
         if isinstance(n, ast.Call):
+            if isinstance(n.func, ast.Attribute) and n.func.attr.startswith("_call_") and norm(n.func.value).split(".")[-1] == "global_callback":
+                continue  # the announcement of a change: a listener may veto it, it does not edit the relation it is told about (stated assumption)
             roots = [a.id for a in n.args if isinstance(a, ast.Name)]
+            if isinstance(n.func, ast.Attribute) and n.func.attr in _CONTAINER_METHODS and not isinstance(n.func.value, ast.Name):
+                roots = []  # X._references.remove(self): a container forgets / learns an element, the element's fields are not touched
+            if isinstance(n.func, ast.Name) and n.func.id in _PURE_BUILTINS:
+                roots = []
             if isinstance(n.func, ast.Attribute) and isinstance(n.func.value, ast.Name):
                 roots.append(n.func.value.id)
             for r in roots:
-                disturb.append((order[id(n)], last[id(n)], r, None))
+                disturb.append((order[id(n)], last[id(n)], r, None, n))
         elif isinstance(n, (ast.Assign, ast.AugAssign, ast.Delete)):
             tg = n.targets if isinstance(n, (ast.Assign, ast.Delete)) else [n.target]
             for t in tg:
                 for x in ast.walk(t):
                     if isinstance(x, ast.Attribute) and isinstance(x.ctx, (ast.Store, ast.Del)) and isinstance(x.value, ast.Name):
-                        disturb.append((order[id(n)], last[id(n)], x.value.id, x.attr))
+                        disturb.append((order[id(n)], last[id(n)], x.value.id, x.attr, n))
     changed = [False]
+
+    def chain(x):
+        out = []
+        while x is not None and x is not node:
+            out.append(x)
+            x = parent.get(id(x))
+        return out
+
+    def exclusive(x, use, bind):
+        """x and use sit in different arms of one if statement (and no loop that starts after the binding takes control from one arm
+        to the other): what happens at x cannot come before the use"""
+        cx, cu = chain(x), chain(use)
+        ids_u = {id(z): i for i, z in enumerate(cu)}
+        for i, z in enumerate(cx):
+            if id(z) in ids_u:
+                j = ids_u[id(z)]
+                if not isinstance(z, ast.If) or i == 0 or j == 0:
+                    return False
+                ax, au = cx[i - 1], cu[j - 1]
+                arm_x = "body" if any(ax is s_ for s_ in z.body) else ("orelse" if any(ax is s_ for s_ in z.orelse) else None)
+                arm_u = "body" if any(au is s_ for s_ in z.body) else ("orelse" if any(au is s_ for s_ in z.orelse) else None)
+                if arm_x is None or arm_u is None or arm_x == arm_u:
+                    return False
+                bchain = {id(b) for b in chain(bind)} if bind is not None else set()
+                return not any(isinstance(l_, (ast.For, ast.While)) and id(l_) not in bchain for l_ in cx[i:])
+        return False
 
     class A(ast.NodeTransformer):
         def visit_Name(self, n):
@@ -641,9 +778,18 @@ def _substitute_field_aliases(node):
                 if not before:
                     return n
                 v, d = max(before, key=lambda t_: t_[1])
+                if isinstance(v, ast.Constant) or not isinstance(v.value, ast.Name):
+                    return n  # (the second: the alias's own root was an alias and has been written out meanwhile — left as it is)
+                if n.id in multi:
+                    blk = parent.get(id(binding_stmt[id(v)]))
+                    p_ = parent.get(id(n))
+                    while p_ is not None and p_ is not blk:
+                        p_ = parent.get(id(p_))
+                    if p_ is None:
+                        return n
                 root, attr = v.value.id, v.attr
-                for first, lst, r, a in disturb:
-                    if d < first and lst < at and r == root and (a is None or a == attr):
+                for first, lst, r, a, where in disturb:
+                    if d < first and lst < at and r == root and (a is None or a == attr) and not exclusive(where, n, binding_stmt.get(id(v))):
                         return n
                 changed[0] = True
                 return ast.copy_location(copy_tree(v), n)
@@ -687,6 +833,161 @@ def eager_generators_inlined(P, f):
     return node, sorted(set(inl.inlined))
 
 
+def _merge_repeated_tests(stmts, held=()):
+    """if T: … if T: X …   ->   if T: … X …     T a comparison of plain names / literals whose names nothing in between assigns
+    (a method spliced into the branch that had already selected its case)"""
+    out = []
+    for st in stmts:
+        if isinstance(st, ast.If):
+            t = norm(st.test)
+            plain = isinstance(st.test, ast.Compare) and all(isinstance(x, (ast.Name, ast.Constant, ast.Compare, ast.Eq, ast.NotEq, ast.Is, ast.IsNot, ast.Load, ast.In, ast.NotIn))
+                                                              for x in ast.walk(st.test))
+            if plain and t in held:
+                out.extend(_merge_repeated_tests(st.body, held))
+                continue
+            names = {x.id for x in ast.walk(st.test) if isinstance(x, ast.Name)}
+            stored = {x.id for s_ in st.body for x in ast.walk(s_) if isinstance(x, ast.Name) and not isinstance(x.ctx, ast.Load)}
+            st.body = _merge_repeated_tests(st.body, held + ((t,) if plain and not (names & stored) else ()))
+            st.orelse = _merge_repeated_tests(st.orelse, held)
+        elif isinstance(st, (ast.For, ast.While, ast.With, ast.Try)):
+            for fld in ("body", "orelse", "finalbody"):
+                sub = getattr(st, fld, None)
+                if isinstance(sub, list) and sub and isinstance(sub[0], ast.stmt):
+                    setattr(st, fld, _merge_repeated_tests(sub, ()))
+        out.append(st)
+    return out or [ast.Pass()]
+
+
+_records_cache = {}
+
+
+def _records(P):
+    """({record constructor name: field names}, {module-level name: lambda it stands for}) over the whole program:
+    NAME = namedtuple("NAME", fields) / class NAME(NamedTuple) with annotated fields; NAME = attrgetter(...) / methodcaller(...) / lambda"""
+    if id(P) in _records_cache:
+        return _records_cache[id(P)]
+    from .unroll import _as_lambda
+    recs, lams, seen = {}, {}, {}
+    for m in P.modules.values():
+        for st in m.tree.body:
+            if isinstance(st, ast.Assign) and len(st.targets) == 1 and isinstance(st.targets[0], ast.Name):
+                nm, v = st.targets[0].id, st.value
+                seen[nm] = seen.get(nm, 0) + 1
+                if isinstance(v, ast.Call) and (norm(v.func).split(".")[-1] == "namedtuple") and len(v.args) == 2 and not v.keywords:
+                    fl = v.args[1]
+                    if isinstance(fl, (ast.List, ast.Tuple)) and all(isinstance(x, ast.Constant) and isinstance(x.value, str) for x in fl.elts):
+                        recs[nm] = [x.value for x in fl.elts]
+                    elif isinstance(fl, ast.Constant) and isinstance(fl.value, str):
+                        recs[nm] = fl.value.replace(",", " ").split()
+                elif nm.startswith("_"):
+                    lam = _as_lambda(v)
+                    if lam is not None and not (lam.args.vararg or lam.args.kwarg or lam.args.kwonlyargs or lam.args.defaults or lam.args.posonlyargs):
+                        lams[nm] = lam
+            elif isinstance(st, ast.ClassDef) and any(norm(b).split(".")[-1] == "NamedTuple" for b in st.bases):
+                fields = [x.target.id for x in st.body if isinstance(x, ast.AnnAssign) and isinstance(x.target, ast.Name)]
+                if fields and not any(isinstance(x, ast.AnnAssign) and x.value is not None for x in st.body):
+                    recs[st.name] = fields
+                seen[st.name] = seen.get(st.name, 0) + 1
+    recs = {k: v for k, v in recs.items() if seen.get(k) == 1}
+    lams = {k: v for k, v in lams.items() if seen.get(k) == 1}
+    _records_cache.clear()
+    _records_cache[id(P)] = (recs, lams)
+    return recs, lams
+
+
+def _scalarise_records(node, recs):
+    """a local that only ever holds a record built on the spot (or None) and is only read field by field (or tested for None):
+         v = R(a, b)   ->  v__f = a; v__g = b; v__present = True          v = None  ->  v__f = None; v__g = None; v__present = False
+         v.f  ->  v__f            v is None / v is not None  ->  not v__present / v__present
+    The record never exists as an object any more — nothing could tell, since nothing else ever saw it.  (Reading a field when v is
+    None raises AttributeError in the source and an unbound-local error in the view: an error path either way.)"""
+    if not recs:
+        return False
+    params = {a.arg for a in node.args.args + node.args.kwonlyargs + node.args.posonlyargs} | \
+        {a.arg for a in (node.args.vararg, node.args.kwarg) if a is not None}
+    stores, loads = {}, {}
+    for x in ast.walk(node):
+        if isinstance(x, ast.Name):
+            (loads if isinstance(x.ctx, ast.Load) else stores).setdefault(x.id, []).append(x)
+    for x in ast.walk(node):
+        for c in ast.iter_child_nodes(x):
+            c._sra_parent = x
+    done = False
+    for v, ss in stores.items():
+        if v in params or v not in loads:
+            continue
+        ctor, ok = None, True
+        for s_ in ss:
+            a = getattr(s_, "_sra_parent", None)
+            if not (isinstance(a, ast.Assign) and len(a.targets) == 1 and a.targets[0] is s_):
+                ok = False
+                break
+            val = a.value
+            if isinstance(val, ast.Constant) and val.value is None:
+                continue
+            if isinstance(val, ast.Call) and isinstance(val.func, ast.Name) and val.func.id in recs and (ctor in (None, val.func.id)) \
+                    and not any(isinstance(z, ast.Starred) for z in val.args) and all(k.arg for k in val.keywords):
+                fields = recs[val.func.id]
+                given = fields[:len(val.args)] + [k.arg for k in val.keywords]
+                if sorted(given) != sorted(fields):
+                    ok = False
+                    break
+                ctor = val.func.id
+                continue
+            ok = False
+            break
+        if not ok or ctor is None:
+            continue
+        fields = recs[ctor]
+        for l_ in loads[v]:
+            par = getattr(l_, "_sra_parent", None)
+            if isinstance(par, ast.Attribute) and par.value is l_ and isinstance(par.ctx, ast.Load) and par.attr in fields:
+                continue
+            if isinstance(par, ast.Compare) and par.left is l_ and len(par.ops) == 1 and isinstance(par.ops[0], (ast.Is, ast.IsNot)) \
+                    and isinstance(par.comparators[0], ast.Constant) and par.comparators[0].value is None:
+                continue
+            ok = False
+            break
+        if not ok or any(isinstance(z, (ast.FunctionDef, ast.Lambda)) and z is not node and any(isinstance(y, ast.Name) and y.id == v for y in ast.walk(z))
+                         for z in ast.walk(node)):
+            continue
+
+        class R(ast.NodeTransformer):
+            def visit_Assign(self, a):
+                self.generic_visit(a)
+                if len(a.targets) == 1 and isinstance(a.targets[0], ast.Name) and a.targets[0].id == v:
+                    if isinstance(a.value, ast.Constant):
+                        out = [ast.Assign(targets=[ast.Name(id="%s__%s" % (v, fl), ctx=ast.Store())], value=ast.Constant(value=None)) for fl in fields]
+                        out.append(ast.Assign(targets=[ast.Name(id=v + "__present", ctx=ast.Store())], value=ast.Constant(value=False)))
+                        return [ast.fix_missing_locations(ast.copy_location(o, a)) for o in out]
+                    vals = dict(zip(fields, a.value.args))
+                    vals.update({k.arg: k.value for k in a.value.keywords})
+                    order = fields[:len(a.value.args)] + [k.arg for k in a.value.keywords]
+                    out = [ast.Assign(targets=[ast.Name(id="%s__%s" % (v, fl), ctx=ast.Store())], value=vals[fl]) for fl in order]
+                    out.append(ast.Assign(targets=[ast.Name(id=v + "__present", ctx=ast.Store())], value=ast.Constant(value=True)))
+                    return [ast.fix_missing_locations(ast.copy_location(o, a)) for o in out]
+                return a
+
+            def visit_Attribute(self, n):
+                self.generic_visit(n)
+                if isinstance(n.value, ast.Name) and n.value.id == v and isinstance(n.ctx, ast.Load):
+                    return ast.copy_location(ast.Name(id="%s__%s" % (v, n.attr), ctx=ast.Load()), n)
+                return n
+
+            def visit_Compare(self, n):
+                if isinstance(n.left, ast.Name) and n.left.id == v:
+                    pres = ast.copy_location(ast.Name(id=v + "__present", ctx=ast.Load()), n)
+                    if isinstance(n.ops[0], ast.IsNot):
+                        return pres
+                    return ast.copy_location(ast.UnaryOp(op=ast.Not(), operand=pres), n)
+                self.generic_visit(n)
+                return n
+        R().visit(node)
+        ast.fix_missing_locations(node)
+        done = True
+    return done
+
+
 def inlined_view(P, f, keep=()):
     """FuncInfo of f with private helpers spliced in (f itself when there is nothing to splice); helpers named in `keep`
     (a set of names or a predicate on the name) stay calls — they are the anchors the calling rule reasons about"""
@@ -696,14 +997,36 @@ def inlined_view(P, f, keep=()):
     node = copy_tree(f.node)
     inl = _Inliner(P, f, keep)
     node.body = inl.stmts(node.body, 0)
+    recs, lams = _records(P)
+    scalar = bool(inl.inlined) and _scalarise_records(node, recs)
     aliased = _substitute_field_aliases(node)
     if not inl.inlined and not aliased:
         _cache[key] = f
         return f
     # a helper that picks constants (attribute / method names) by a test, spliced in: the code that follows is read once per choice
-    from .unroll import specialise, _Choice
+    from .unroll import specialise, _Choice, _Fold, _fold_constant_tests
     node.body = specialise(node.body)
     _Choice().visit(node)
+    if any("DefaultNamespace" in h or "super" in h for h in inl.inlined) or inl.super_used:
+        node.body = _merge_repeated_tests(node.body)
+    if scalar:
+        # the choices made, what was a field holding a function is a function called by name: module-level operator helpers
+        # (_lower = methodcaller("lower")) are applied, private one-line functions spliced, tests on the presence flag folded
+        class L(ast.NodeTransformer):
+            def visit_Call(self, n):
+                self.generic_visit(n)
+                if isinstance(n.func, ast.Name) and n.func.id in lams and not n.keywords and len(n.args) == len(lams[n.func.id].args.args):
+                    n.func = copy_tree(lams[n.func.id])
+                return n
+        L().visit(node)
+        _Fold().visit(node)
+        ast.fix_missing_locations(node)
+        for parent in ast.walk(node):
+            for child in ast.iter_child_nodes(parent):
+                child._parent = parent
+        node.body = inl.stmts(node.body, 0)
+        node.body = _fold_constant_tests(node.body) or node.body
+        _substitute_field_aliases(node)
     have = {n_ for st in node.body if isinstance(st, ast.Global) for n_ in st.names}
     if inl.globals - have:
         node.body.insert(0, ast.copy_location(ast.Global(names=sorted(inl.globals - have)), node.body[0]))
@@ -719,12 +1042,63 @@ def inlined_view(P, f, keep=()):
 
 
 
+def guards_structured_view(f):
+    """FuncInfo of f in which, inside loops, a guard clause `if c: continue` followed by the rest of the body reads
+    `if not c: <rest>` — the same control flow with the condition under which the rest runs written at the rest"""
+    flip = {ast.Eq: ast.NotEq, ast.NotEq: ast.Eq, ast.Is: ast.IsNot, ast.IsNot: ast.Is, ast.In: ast.NotIn, ast.NotIn: ast.In,
+            ast.Lt: ast.GtE, ast.GtE: ast.Lt, ast.Gt: ast.LtE, ast.LtE: ast.Gt}
+    changed = [False]
+
+    def neg(t):
+        if isinstance(t, ast.UnaryOp) and isinstance(t.op, ast.Not):
+            return t.operand
+        if isinstance(t, ast.Compare) and len(t.ops) == 1 and type(t.ops[0]) in flip:
+            return ast.copy_location(ast.Compare(left=t.left, ops=[flip[type(t.ops[0])]()], comparators=t.comparators), t)
+        return ast.copy_location(ast.UnaryOp(op=ast.Not(), operand=t), t)
+
+    def body_of_loop(stmts):
+        out = []
+        for i, st in enumerate(stmts):
+            walk(st)
+            if isinstance(st, ast.If) and not st.orelse and len(st.body) == 1 and isinstance(st.body[0], ast.Continue) and stmts[i + 1:]:
+                rest = body_of_loop(stmts[i + 1:])
+                out.append(ast.copy_location(ast.If(test=neg(st.test), body=rest, orelse=[]), st))
+                changed[0] = True
+                return out
+            out.append(st)
+        return out
+
+    def walk(st):
+        for fld in ("body", "orelse", "finalbody"):
+            sub = getattr(st, fld, None)
+            if isinstance(sub, list) and sub and isinstance(sub[0], ast.stmt) and not isinstance(st, (ast.FunctionDef, ast.AsyncFunctionDef, ast.ClassDef)):
+                if isinstance(st, (ast.For, ast.While)) and fld == "body":
+                    setattr(st, fld, body_of_loop(sub))
+                else:
+                    for x in sub:
+                        walk(x)
+        for h in getattr(st, "handlers", []) or []:
+            for x in h.body:
+                walk(x)
+    node = copy_tree(f.node)
+    for st in node.body:
+        walk(st)
+    if not changed[0]:
+        return f
+    ast.fix_missing_locations(node)
+    for parent in ast.walk(node):
+        for child in ast.iter_child_nodes(parent):
+            child._parent = parent
+    node._parent = getattr(f.node, "_parent", None)
+    return FuncInfo(f.name, f.qualname, f.module, f.cls, node, f.role, f.prop)
+
+
 _unmerge_cache = {}
 
 
 def unmerged_view(P, f, max_rest=40):
     """FuncInfo of f in which the statements that follow `if isinstance(v, K): A else: B` (both branches falling through) and read `v`
-    are moved into both branches.  Nothing changes but the shape: each copy is then analysed knowing which kind `v` has — what a
+    are moved into both branches; likewise after an if / else one side of which leaves a local at None that the rest reads.  Nothing changes but the shape: each copy is then analysed knowing which kind `v` has — what a
     path-sensitive typing of the merged tail would give.  Keys and names are f's."""
     key = (id(P), f.key)
     if key in _unmerge_cache:
@@ -749,14 +1123,24 @@ def unmerged_view(P, f, max_rest=40):
                 t = st.test
                 if isinstance(t, ast.UnaryOp) and isinstance(t.op, ast.Not):
                     t = t.operand
+                vs = []
                 if isinstance(t, ast.Call) and isinstance(t.func, ast.Name) and t.func.id == "isinstance" and len(t.args) == 2 and isinstance(t.args[0], ast.Name):
-                    v = t.args[0].id
+                    vs.append(t.args[0].id)
+                # … or a split in which one side leaves a local at None (`port = pin.port if pin else None`): what follows usually tests it
+                def none_binds(blk):
+                    return {a.targets[0].id for a in blk if isinstance(a, ast.Assign) and len(a.targets) == 1 and isinstance(a.targets[0], ast.Name)
+                            and isinstance(a.value, ast.Constant) and a.value.value is None}
+
+                def binds(blk):
+                    return {a.targets[0].id for a in blk if isinstance(a, ast.Assign) and len(a.targets) == 1 and isinstance(a.targets[0], ast.Name)}
+                vs.extend(sorted((none_binds(st.body) & binds(st.orelse)) | (none_binds(st.orelse) & binds(st.body))))
+                for v in vs:
                     reads = any(isinstance(x, ast.Name) and x.id == v and isinstance(x.ctx, ast.Load) for s_ in rest for x in ast.walk(s_))
-                    rebinds = any(isinstance(x, ast.Name) and x.id == v and not isinstance(x.ctx, ast.Load) for s_ in st.body + st.orelse for x in ast.walk(s_))
-                    if reads and not rebinds and falls(st.body) and falls(st.orelse) and count(rest) <= max_rest \
+                    if reads and falls(st.body) and falls(st.orelse) and count(rest) <= max_rest \
                             and not any(isinstance(x, (ast.FunctionDef, ast.Lambda)) for s_ in rest for x in ast.walk(s_)):
-                        st.body = st.body + block([copy_tree(s_) for s_ in rest], depth + 1)
-                        st.orelse = st.orelse + block([copy_tree(s_) for s_ in rest], depth + 1)
+                        # (the arm and its copy of the rest are read again as one block: a split at the end of the arm meets its tail now)
+                        st.body = block(st.body + [copy_tree(s_) for s_ in rest], depth + 1)
+                        st.orelse = block(st.orelse + [copy_tree(s_) for s_ in rest], depth + 1)
                         out.append(st)
                         changed[0] = True
                         return out
